@@ -234,4 +234,101 @@ example : Vlan.sampleMax.WF := by decide
 
 end Vlan
 
+/-! ## Linux cooked capture v1 (SLL) -/
+namespace Sll
+open EpModel.Codec.Sll
+
+/-- no reserved bits. -/
+def maskReserved (b : Bytes) : Bytes := b
+
+theorem tryFrom_of_consistent (hrd : Nat) (p : SllProto) (hc : protoConsistent hrd p = true) :
+    sllProtoTryFrom hrd p.val = .ok p := by
+  cases p <;> simp [protoConsistent] at hc <;> simp [sllProtoTryFrom, SllProto.val, hc]
+  · rcases hc with hc | hc <;> simp [hc]
+
+theorem consistent_of_tryFrom (hrd v : Nat) (p : SllProto) (h : sllProtoTryFrom hrd v = .ok p) :
+    protoConsistent hrd p = true ∧ p.val = v := by
+  unfold sllProtoTryFrom at h
+  repeat' split at h
+  all_goals first | cases h | skip
+  all_goals simp_all [protoConsistent, SllProto.val]
+
+theorem toBytes_length (h : Sll) (hw : h.WF) : (toBytes h).length = 16 := by
+  simp [toBytes, hw.2.2.2.1]
+
+theorem encoders_agree (h : Sll) (hw : h.WF) :
+    toBytes h = writeOut h ∧ writeToSlice h (headerLen h) = .ok (toBytes h, 0) ∧
+      (toBytes h).length = headerLen h :=
+  ⟨rfl, by simp [writeToSlice, headerLen], toBytes_length h hw⟩
+
+theorem decode_encode (h : Sll) (tail : Bytes) (hw : h.WF) :
+    fromSlice (toBytes h ++ tail) = .ok (h, tail) := by
+  have hl := toBytes_length h hw
+  unfold fromSlice
+  rw [if_neg (by simp [hl]), drop_append_exact _ _ _ hl]
+  obtain ⟨h1, h2, h3, h4, h5, h6⟩ := hw
+  obtain ⟨pt, hrd, alen, addr, proto⟩ := h
+  simp only at h1 h2 h3 h4 h5 h6
+  have e0 : be16 (toBytes ⟨pt, hrd, alen, addr, proto⟩ ++ tail) 0 = pt := by
+    simp [toBytes, be16_enc16, show pt < 65536 by omega]
+  have e2 : be16 (toBytes ⟨pt, hrd, alen, addr, proto⟩ ++ tail) 2 = hrd := by
+    simp [toBytes, be16_enc16, h2]
+  have e4 : be16 (toBytes ⟨pt, hrd, alen, addr, proto⟩ ++ tail) 4 = alen := by
+    simp [toBytes, be16_enc16, h3]
+  have e6 : sub (toBytes ⟨pt, hrd, alen, addr, proto⟩ ++ tail) 6 8 = addr := by
+    simp [toBytes, sub_append_exact, h4]
+  have e14 : be16 (toBytes ⟨pt, hrd, alen, addr, proto⟩ ++ tail) 14 = proto.val := by
+    simp [toBytes, be16_enc16, h5, be16_append_right, h4]
+  rw [e0, e2, e4, e6, e14, tryFrom_of_consistent hrd proto h6]
+  simp [ptypeTryFrom, h1]
+
+theorem decode_wf (b rest : Bytes) (h : Sll) (hd : fromSlice b = .ok (h, rest)) :
+    h.WF ∧ rest = b.drop (headerLen h) ∧ headerLen h ≤ b.length := by
+  unfold fromSlice at hd
+  split at hd
+  · cases hd
+  · split at hd
+    · cases hd
+    · rename_i pt hpt
+      split at hd
+      · cases hd
+      · rename_i proto hproto
+        cases hd
+        have hc := consistent_of_tryFrom _ _ _ hproto
+        unfold ptypeTryFrom at hpt
+        split at hpt
+        · cases hpt
+          refine ⟨⟨by assumption, be16_lt _ _, be16_lt _ _, sub_length _ _ _ (by omega), ?_, hc.1⟩, rfl,
+            by simp only [headerLen]; omega⟩
+          rw [hc.2]; exact be16_lt _ _
+        · cases hpt
+
+theorem encode_decode (b rest : Bytes) (h : Sll) (hd : fromSlice b = .ok (h, rest)) :
+    toBytes h = maskReserved (b.take (headerLen h)) ∧ fromSlice (toBytes h ++ rest) = .ok (h, rest) := by
+  refine ⟨?_, decode_encode h rest (decode_wf b rest h hd).1⟩
+  unfold fromSlice at hd
+  split at hd
+  · cases hd
+  · split at hd
+    · cases hd
+    · rename_i pt hpt
+      split at hd
+      · cases hd
+      · rename_i proto hproto
+        cases hd
+        have hc := consistent_of_tryFrom _ _ _ hproto
+        unfold ptypeTryFrom at hpt
+        split at hpt
+        · cases hpt
+          simp only [toBytes, maskReserved, headerLen, hc.2]
+          rw [enc16_be16 b 0 (by omega), enc16_be16 b 2 (by omega), enc16_be16 b 4 (by omega),
+            enc16_be16 b 14 (by omega), sub_glue b 0 2 2 2 4 rfl rfl, sub_glue b 0 4 4 2 6 rfl rfl,
+            sub_glue b 0 6 6 8 14 rfl rfl, sub_glue b 0 14 14 2 16 rfl rfl, sub_zero]
+        · cases hpt
+
+example : Sll.sampleMax.WF := by decide
+example : Sll.sampleEth.WF := by decide
+
+end Sll
+
 end EpModel.Props.C08Link
